@@ -222,8 +222,9 @@ End C01_real_transport.
     control packets, the peer's parser, one dispatch goroutine per finished packet entering the
     handlers in ANY order.  The emitters' programs are the encodings of the stamped events; the
     codec is a packet-level hypothesis (C09).  In every reachable quiescent state the parser has
-    not failed and every registered handler has been handed, as a multiset, exactly the argument
-    lists emitted under its name. *)
+    not failed, is idle, has finished exactly the emitted events in an order that is an
+    interleaving ([pops], C02) of the per-emitter sequences, and every registered handler has been
+    handed, as a multiset, exactly the argument lists emitted under its name. *)
 Section C01_all_schedules.
   Variables (name arg offset data : Type).
   Variable name_eqb : name -> name -> bool.
@@ -250,6 +251,9 @@ Section C01_all_schedules.
         (programs name arg offset off_arg data encode_sp c ems) s ->
       quiescent_state s ->
       st_rerr s = false /\ st_parser s = None /\
+      (exists order evs rem,
+          pops ems order = Some (evs, rem) /\ all_nil rem = true /\
+          decoded name arg data decode_sp (st_finished s) = map (stamp name arg offset off_arg c) evs) /\
       forall h, In h hs ->
         Permutation
           (handed arg (hid name h) (sched_deliveries name arg get_all data decode_sp c s))
